@@ -29,6 +29,9 @@ is a shape the extractor does not understand (fail-closed, less serious, still w
     modern-annotations  Optional[X] -> X | None, Union[A, B] -> A | B, List[X] -> list[X] ... inside annotations (pyupgrade)
     small-idioms   chained comparison split, tuple <-> list literals in `for` / `in`, dict() / list() / tuple() -> displays
     empty-displays-to-calls   {} -> dict(), [] -> list()
+    ete-synonyms   traverse("s") -> traverse(strategy="s"), iter_X() <-> get_X() in iterations, x.is_leaf() -> not x.children
+    lambda-to-def  a lambda in a statement of a function body -> a local def just before it
+    minmax-forms   v = min(v, e) -> if e < v: v = e; min(a, b) -> a if a <= b else b / min([a, b])
     hoist-strings  a string literal used twice in the functions of a module becomes a module-level constant
     extract-alias  .. x.costs[a] .. x.costs[b] ..  ->  alias = x.costs; .. alias[a] .. alias[b] ..
     inline-alias   c = x.costs; .. c[k] ..  ->  .. x.costs[k] ..   (top-level local bound once to an attribute chain of a parameter)
@@ -743,6 +746,130 @@ class EmptyDisplaysToCalls(Rewrite):
         return node
 
 
+
+ETE_PAIRS = {"iter_leaves": "get_leaves", "get_leaves": "iter_leaves", "iter_descendants": "get_descendants", "get_descendants": "iter_descendants",
+             "iter_ancestors": "get_ancestors", "get_ancestors": "iter_ancestors", "iter_leaf_names": "get_leaf_names", "get_leaf_names": "iter_leaf_names"}
+
+
+class EteSynonyms(Rewrite):
+    """ete3 spellings of the same thing: traverse("s") -> traverse(strategy="s"); iter_X() <-> get_X() where the
+    result is only iterated; x.is_leaf() -> not x.children; x.children -> x.get_children()"""
+
+    def _iter(self, it):
+        if isinstance(it, ast.Call) and isinstance(it.func, ast.Attribute) and it.func.attr in ETE_PAIRS and not it.args and not it.keywords and self.hit():
+            it.func.attr = ETE_PAIRS[it.func.attr]
+        return it
+
+    def visit_For(self, node):
+        node = self.generic_visit(node)
+        node.iter = self._iter(node.iter)
+        return node
+
+    def visit_comprehension(self, node):
+        node = self.generic_visit(node)
+        node.iter = self._iter(node.iter)
+        return node
+
+    def visit_Call(self, node):
+        node = self.generic_visit(node)
+        if isinstance(node.func, ast.Attribute) and node.func.attr == "traverse" and len(node.args) == 1 and not node.keywords and self.hit():
+            return ast.Call(func=node.func, args=[], keywords=[ast.keyword(arg="strategy", value=node.args[0])])
+        if isinstance(node.func, ast.Attribute) and node.func.attr == "is_leaf" and not node.args and self.hit():
+            children = ast.Attribute(value=node.func.value, attr="children", ctx=ast.Load())
+            self.leaf_forms = getattr(self, "leaf_forms", 0) + 1
+            if self.leaf_forms % 2:
+                return ast.UnaryOp(op=ast.Not(), operand=children)
+            return ast.Compare(left=ast.Call(func=ast.Name(id="len", ctx=ast.Load()), args=[children], keywords=[]), ops=[ast.Eq()], comparators=[ast.Constant(value=0)])
+        return node
+
+
+
+class LambdaToDef(Rewrite):
+    """a lambda written directly in a return / assignment / call statement of a function body becomes a local `def`
+    placed just before the statement (free variables are looked up at call time either way)"""
+
+    def __init__(self, only=None):
+        super().__init__(only)
+        self.scopes = []
+
+    def visit_FunctionDef(self, node):
+        self.scopes.append("def")
+        try:
+            return self.generic_visit(node)
+        finally:
+            self.scopes.pop()
+
+    visit_AsyncFunctionDef = visit_FunctionDef
+
+    def visit_ClassDef(self, node):
+        self.scopes.append("class")
+        try:
+            return self.generic_visit(node)
+        finally:
+            self.scopes.pop()
+
+    def _lambdas(self, node, parent=None, field=None, index=None, out=None):
+        for name, value in ast.iter_fields(node):
+            items = value if isinstance(value, list) else [value]
+            for i, item in enumerate(items):
+                if not isinstance(item, ast.AST):
+                    continue
+                if isinstance(item, ast.Lambda):
+                    out.append((node, name, i if isinstance(value, list) else None, item))
+                elif not isinstance(item, (ast.ListComp, ast.SetComp, ast.DictComp, ast.GeneratorExp, ast.FunctionDef, ast.ClassDef)):
+                    self._lambdas(item, out=out)
+        return out
+
+    def _block(self, stmts):
+        out = []
+        for st in stmts:
+            st = self.visit(st)
+            if self.scopes and self.scopes[-1] == "def" and isinstance(st, (ast.Return, ast.Assign, ast.Expr)):
+                for holder, name, idx, lam in self._lambdas(st, out=[]):
+                    if lam.args.defaults or lam.args.kw_defaults or not self.hit():
+                        continue
+                    fname = f"fn_eq{self.count}"
+                    out.append(ast.FunctionDef(name=fname, args=lam.args, body=[ast.Return(value=lam.body)], decorator_list=[], returns=None, type_params=[]))
+                    ref = ast.Name(id=fname, ctx=ast.Load())
+                    if idx is None:
+                        setattr(holder, name, ref)
+                    else:
+                        getattr(holder, name)[idx] = ref
+            out.append(st)
+        return out
+
+    generic_visit = IfExpToStmt.generic_visit
+
+
+def _call_free(node):
+    return not any(isinstance(x, (ast.Call, ast.Await, ast.Yield, ast.NamedExpr)) for x in ast.walk(node))
+
+
+class MinMaxForms(Rewrite):
+    """v = min(v, e) -> if e < v: v = e;   min(a, b) -> a if a <= b else b (operands without calls) or min([a, b]);
+    likewise max"""
+
+    def visit_Assign(self, st):
+        if (len(st.targets) == 1 and isinstance(st.targets[0], ast.Name) and isinstance(st.value, ast.Call)
+                and isinstance(st.value.func, ast.Name) and st.value.func.id in ("min", "max") and len(st.value.args) == 2 and not st.value.keywords
+                and isinstance(st.value.args[0], ast.Name) and st.value.args[0].id == st.targets[0].id and _call_free(st.value.args[1]) and self.hit()):
+            op = ast.Lt() if st.value.func.id == "min" else ast.Gt()
+            e = st.value.args[1]
+            return ast.If(test=ast.Compare(left=e, ops=[op], comparators=[ast.Name(id=st.targets[0].id, ctx=ast.Load())]),
+                          body=[ast.Assign(targets=[ast.Name(id=st.targets[0].id, ctx=ast.Store())], value=e)], orelse=[])
+        return self.generic_visit(st)
+
+    def visit_Call(self, node):
+        node = self.generic_visit(node)
+        if isinstance(node.func, ast.Name) and node.func.id in ("min", "max") and len(node.args) == 2 and not node.keywords and not any(isinstance(a, ast.Starred) for a in node.args) and self.hit():
+            a, b = node.args
+            if _call_free(a) and _call_free(b):
+                op = ast.LtE() if node.func.id == "min" else ast.GtE()
+                return ast.IfExp(test=ast.Compare(left=a, ops=[op], comparators=[b]), body=a, orelse=b)
+            return ast.Call(func=node.func, args=[ast.List(elts=[a, b], ctx=ast.Load())], keywords=[])
+        return node
+
+
 def package_signatures(prog):
     seen, dup = {}, set()
     for mod in prog.modules.values():
@@ -789,6 +916,9 @@ REWRITES = {
     "add-asserts": lambda sig, only: AddAsserts(only),
     "hoist-strings": lambda sig, only: HoistStrings(only),
     "modern-annotations": lambda sig, only: ModernAnnotations(only),
+    "ete-synonyms": lambda sig, only: EteSynonyms(only),
+    "lambda-to-def": lambda sig, only: LambdaToDef(only),
+    "minmax-forms": lambda sig, only: MinMaxForms(only),
     "small-idioms": lambda sig, only: SmallIdioms(only),
     "empty-displays-to-calls": lambda sig, only: EmptyDisplaysToCalls(only),
 }
